@@ -185,7 +185,14 @@ class SpecEval:
             if name == "ite": return self.t_IfExp(ast.IfExp(test=n.args[0], body=n.args[1], orelse=n.args[2]))
             if name == "len":
                 o = self.term(n.args[0])
+                if o.ty is STR:
+                    E.str_repeat(E.strconst("."), z3.IntVal(0))
+                    return SV(z3.Function("str_len", Str, I)(o.v), INT)
                 sq, v = E.seq_of(self.st, o); return SV(sq.len(v), INT)
+            if name == "path_empty":
+                return SV(PATH.mk(z3.IntVal(1), z3.K(I, EPS)), PATH)
+            if name == "dots":
+                return SV(E.str_repeat(E.strconst("."), self.term(n.args[0]).v), STR)
             if name == "isinstance":
                 o = self.term(n.args[0]); return SV(self.isinst(o, n.args[1]), BOOL)
             if name == "min" or name == "max":
